@@ -187,6 +187,21 @@ func (a *WALBatchApplier) ApplyEntries(entries []*replication_proto.WALEntry, ap
 			a.expectedNextSeq, firstSeq)
 	}
 
+	// The entries in front of the one a batch is abandoned at stay applied. Remember
+	// them (whole sequence numbers only: the entries of one transaction share one),
+	// so that the retransmission does not apply them a second time, over newer data.
+	keepProgress := func(failedAt int) {
+		for j := failedAt - 1; j >= 0; j-- {
+			if done := entries[j].SequenceNumber; done != entries[failedAt].SequenceNumber {
+				if done > a.maxAppliedSeq {
+					a.maxAppliedSeq = done
+					a.expectedNextSeq = done + 1
+				}
+				return
+			}
+		}
+	}
+
 	// Process entries in order
 	var lastAppliedSeq uint64
 	for i, protoEntry := range entries {
@@ -196,6 +211,7 @@ func (a *WALBatchApplier) ApplyEntries(entries []*replication_proto.WALEntry, ap
 			protoEntry.SequenceNumber != entries[i-1].SequenceNumber {
 			// Gap within the batch
 			hasGap = true
+			keepProgress(i)
 			return a.maxAppliedSeq, hasGap, fmt.Errorf("sequence gap within batch: %d -> %d",
 				entries[i-1].SequenceNumber, protoEntry.SequenceNumber)
 		}
@@ -205,6 +221,7 @@ func (a *WALBatchApplier) ApplyEntries(entries []*replication_proto.WALEntry, ap
 		if err != nil {
 			fmt.Printf("Failed to deserialize entry %d: %v\n",
 				protoEntry.SequenceNumber, err)
+			keepProgress(i)
 			return a.maxAppliedSeq, false, fmt.Errorf("failed to deserialize entry %d: %w",
 				protoEntry.SequenceNumber, err)
 		}
@@ -219,6 +236,7 @@ func (a *WALBatchApplier) ApplyEntries(entries []*replication_proto.WALEntry, ap
 		if err := applyFn(entry); err != nil {
 			fmt.Printf("Failed to apply entry %d: %v\n",
 				protoEntry.SequenceNumber, err)
+			keepProgress(i)
 			return a.maxAppliedSeq, false, fmt.Errorf("failed to apply entry %d: %w",
 				protoEntry.SequenceNumber, err)
 		}
